@@ -28,7 +28,7 @@ RULE = ("seeded pipelines (sweeps, slicers, shorthands, sinks included) x four r
         "samples after 50/150/450 runs of: sum of component-registry list lengths, sizes of every other module-level container "
         "found, len(gc.get_objects()) after gc.collect(). Oracle: registries equal at the three samples; gc slope < 0.5 object/"
         "run on the 150->450 interval (both slopes reported); growth attributed to named roots by gc.get_referents BFS. The queue-worker mode runs in a seeded "
-        "quarter of the evaluations. distinct_nontrivial = distinct (pipeline digest, mode) histories completed with all samples.")
+        "quarter of the evaluations; a fifth mode drives cli.main once per run; the container clause scans every module-level and class-level container of every loaded semantiva module; fresh histories may share one orchestrator or load the configuration from a rewritten YAML path; queue histories may be fire-and-forget; a candidate for unattributed growth is confirmed on a 1350-run history. distinct_nontrivial = distinct (pipeline digest, mode) histories completed with all samples.")
 REAL_COMPONENTS = ["Pipeline / LocalSemantivaOrchestrator / SequentialSemantivaExecutor (default wiring, no recording seam)",
                    "node factory and all class-generating factories", "component metaclass registry", "cli.main run-space loop",
                    "QueueSemantivaOrchestrator + worker_loop + InMemorySemantivaTransport (mode 4)"]
